@@ -218,6 +218,24 @@ def job_finalize(job, out):
     return {'usage': usage, 'memory': memory, 'slots': slots, 'suggested': res, 'final': final}
 
 
+def job_metavars(job, out):
+    """the set-ordered Axiom.metavars tuples of a real database and what their consumers compute from them"""
+    from proof_generation.metamath.converter.converter import MetamathConverter
+    from proof_generation.metamath.parser import load_database
+
+    c = MetamathConverter(load_database(job['path'], include_proof=True))
+    res = {}
+    for table in (c._axioms, c._lemmas):
+        for name, objs in table.items():
+            res[name] = {'metavars': list(objs[0].metavars), 'in_order': list(c.get_metavars_in_order(name)),
+                         'as_set': sorted(c.get_metavars(name)), 'len': len(objs[0].metavars)}
+    return {'floating': list(c._floating_patterns), 'names': res}
+
+
+def job_sorted(job, out):
+    return {'sorted': [sorted(set(l)) for l in job['lists']]}
+
+
 def main():
     req = json.loads(sys.stdin.read())
     out = req['out']
@@ -234,6 +252,10 @@ def main():
                 r = job_mm(job, out)
             elif t == 'finalize':
                 r = job_finalize(job, out)
+            elif t == 'metavars':
+                r = job_metavars(job, out)
+            elif t == 'sorted':
+                r = job_sorted(job, out)
             else:
                 r = {'err': 'unknown job'}
         except BaseException as e:  # noqa: BLE001   (SystemExit from argparse included)
